@@ -154,7 +154,8 @@ class Report:
                 seen_known.setdefault(v['signature'], []).append(v)
             else:
                 new.append(v)
-        rdir = os.path.join(ROOT, 'replays', self.pid)
+        OUT = os.environ.get('VERIF_OUT', ROOT)   # selftests redirect evidence/replays away from /verif
+        rdir = os.path.join(OUT, 'replays', self.pid)
         os.makedirs(rdir, exist_ok=True)
         for old in os.listdir(rdir):
             try:
@@ -197,8 +198,8 @@ class Report:
             'wall_s': round(time.time() - self.t0, 2),
             'violations': len(bysig),
         }
-        os.makedirs(os.path.join(ROOT, 'evidence'), exist_ok=True)
-        with open(os.path.join(ROOT, 'evidence', self.pid + '.json'), 'w') as f:
+        os.makedirs(os.path.join(OUT, 'evidence'), exist_ok=True)
+        with open(os.path.join(OUT, 'evidence', self.pid + '.json'), 'w') as f:
             json.dump(ev, f, indent=1, default=str)
         print('%s: tier=%s seed=%d states=%d transitions=%d traces=%d violations=%d known=%d wall=%.1fs'
               % (self.pid, tier(), seed(), self.cov['states'], self.cov['transitions'],
